@@ -88,6 +88,18 @@ claim(
     "DESIGN.md section 4, C15",
 )
 
+claim(
+    "C16",
+    "doc/code table agreement: constraint registrations of both checkers (set algebra and Op predicates folded from source) vs SUPPORTED_OPS.md bullets "
+    "matched by docstring templates; dead-constraint detection; report-generator list coverage; who-writes run_on_npu; per-rewrite guard",
+    "Decides clauses a-d of DESIGN.md 4/C16: the published report lists, per operator, exactly the registered constraints and exemptions; every defined "
+    "constraint is registered and uses the quantity its text names; the generator reads every enforced list with the right exemption table; the verdict "
+    "reaches run_on_npu, rewrites are guarded per rewrite, and run_on_npu has only reviewed writers. Known findings F14, F20 are genuine report/code "
+    "disagreements of this fork. Does NOT decide end-to-end NPU placement of a conforming operator.",
+    "Trusted: docstring-template matching ({} as wildcard); Op predicate forms recognised by the folder; the reviewed writer table of run_on_npu.",
+    "DESIGN.md section 4, C16",
+)
+
 
 def build():
     checks = []
